@@ -1,10 +1,10 @@
 SPECIFICATION GSpec
 CONSTANTS
-  Layouts <- GoodCfg
+  Layouts <- GoodIm
   Impl <- NoDevs
   Depth = 5
-  GenModes <- QuickModes
-  GenBy = FALSE
+  GenModes <- AllModes
+  GenBy = TRUE
 CONSTRAINT Bound
 ACTION_CONSTRAINT EmitStep
 VIEW AbstractView
